@@ -295,6 +295,7 @@ class Kernel:
                     os.close(fd)
             p.fds = []
             self.log("launchfail", task=task, errno=code, pid=pid)
+            p.exit_idx = self.log("exit", pid=pid, task=task, status=p.status, foreign=False, execfail=True)
             return pid
 
         if mode == 1:
